@@ -80,6 +80,8 @@ def py_registry(case, out):
             l = l[1:]
             if closed:
                 want = [5, 0]
+            elif serving:
+                want = [5, 3]      # Serve while serving: refused with an error, nothing changes
             else:
                 want = [5, 1]
                 serving = True
@@ -92,6 +94,14 @@ def py_registry(case, out):
             closed = True
             if take(2) != want:
                 return "0 140 6"
+        elif op == 7:
+            l = l[1:]
+            want = [7, 1 if serving else 0]
+            if serving:
+                serving = False
+                closed = True      # a Serve that returned (listener error) is not restartable
+            if take(2) != want:
+                return "0 140 8"
         else:
             return "2"
     return "1" if pos == len(toks) else "0 140 7"
@@ -124,15 +134,20 @@ def cases(rng, tier):
                 ops += [3] + list(rng.choice(addrs + [(0, 0)]))
             elif r < 0.85:
                 ops += [4]
-            elif r < 0.93 and not served:
-                ops += [5]
+            elif r < 0.93 and (not served or rng.random() < 0.3):
+                ops += [5]            # also while already serving, and after Close
                 served = True
+            elif r < 0.96:
+                ops += [7]            # the listener breaks (Serve, if running, returns the listener error)
+                if rng.random() < 0.7:
+                    ops += [5]        # ... and the application tries to Serve again
             else:
                 ops += [6]
         cs.append(Case(40, ops, [], "registry.random"))
     # directed lifecycle scripts
     a = [1, 1, 5, 65001, 65000, 0, 0, 90, 100179, 1]
-    for ops in ([6, 5], [5, 6, 5], a + [5] + a + [4, 6, 4], [5] + a + [2, 1, 5, 6], a + [6] + a + [5, 4], [5, 6, 6], [6, 6, 5]):
+    for ops in ([6, 5], [5, 6, 5], a + [5] + a + [4, 6, 4], [5] + a + [2, 1, 5, 6], a + [6] + a + [5, 4], [5, 6, 6], [6, 6, 5],
+                [5, 5, 6], a + [5, 5, 4, 6, 4], a + [5, 5, 5, 2, 1, 5, 6], [5, 7, 5, 6], a + [5, 7, 5, 4, 6], [7, 5, 6], [5, 7, 6, 5], a + [5, 7] + [2, 1, 5] + a + [5, 6]):
         cs.append(Case(40, ops, [], "registry.directed"))
     # validation grid
     grid = 0
